@@ -40,7 +40,8 @@ pub fn run(rep: &mut Report, thorough: bool) {
     let mut jobs = vec![];
     for c in CONSTRUCTS {
         for op in OPS {
-            if op == "parse-rule-meta" && !matches!(c, "list" | "map" | "parens" | "flat-list" | "flat-map" | "long-string" | "unclosed-parens" | "unclosed-brackets" | "bad-tail") {
+            // (a metadata value that is not a constant is rejected — after it was parsed: the error path runs on a deep tree too)
+            if op == "parse-rule-meta" && matches!(c, "long-ident") {
                 continue;
             }
             // (nested lists / maps die in `evaluate` before there is a value to print: that is the evaluate finding)
@@ -113,6 +114,9 @@ pub fn run(rep: &mut Report, thorough: bool) {
         });
         out
     };
+    // how shallow a crash of a pair that is a known finding may be before it counts as a NEW failing input: a fifth of the
+    // threshold measured on the pinned tree, per (operation, construct, thread / build) — /verif/c19-floors.json, committed
+    let floors: std::collections::HashMap<String, usize> = std::fs::read_to_string(concat!(env!("CARGO_MANIFEST_DIR"), "/../c19-floors.json")).ok().and_then(|t| serde_json::from_str(&t).ok()).unwrap_or_default();
     for (idx, crash, runs) in results {
         let (c, op, th) = jobs[idx];
         for _ in 0..runs {
@@ -132,6 +136,20 @@ pub fn run(rep: &mut Report, thorough: bool) {
                 predicate: "the operation completes or returns an error; it never exhausts the stack".into(),
                 signature: format!("C19 stack op={} construct={}", op, c),
             });
+            if let Some(floor) = floors.get(&format!("{} {} {}", op, c, th)) {
+                if d < *floor {
+                    rep.add_finding(Finding {
+                        kind: "impl-violates-property".into(),
+                        stream: "nesting-depth".into(),
+                        case: format!("c19_child {} {} {} {}", c, op, d, th),
+                        human: format!("{} of {} nested only about {} deep on the {} thread (the recorded finding for this pair starts at about {})", op, c, d, th, floor * 5),
+                        impl_out: "killed by a signal (stack exhaustion)".into(),
+                        model_out: format!("on the pinned tree this input is handled: the stack is exhausted only from a depth of about {}", floor * 5),
+                        predicate: "an input that the pinned tree handles is still handled: the known finding for this (operation, construct) is a crash from the recorded depth on, not at a fifth of it".into(),
+                        signature: format!("C19 stack-earlier op={} construct={}", op, c),
+                    });
+                }
+            }
         }
     }
     rep.streams.push(sr);
